@@ -19,8 +19,8 @@ const oUnspec = 4
 const (
 	rvNil = iota
 	rvBool
-	rvInt   // any signed kind
-	rvUint  // any unsigned kind
+	rvInt  // any signed kind
+	rvUint // any unsigned kind
 	rvF32
 	rvF64
 	rvStr
@@ -35,7 +35,7 @@ const (
 
 // Static element kinds of a list.
 const (
-	elIface = iota
+	elIface    = iota
 	elConcrete // element type is exactly the kind of the items (scalar)
 	elPtr      // pointer to a scalar kind
 	elOther    // struct, slice, map ... (no primitive comparison)
